@@ -10,7 +10,7 @@ PROPS = 'Props/C13.v'
 def gen_cases(rng, tier, scale):
     cases = []
     maxchain = 3 if tier == 'quick' else 5
-    plan = [(1, 14, None), (2, 26, None), (3, 22, None), (4, 8, 10)] if tier == 'quick' else \
+    plan = [(1, 20, None), (2, 36, None), (3, 32, None), (4, 10, 10)] if tier == 'quick' else \
            [(1, 120, None), (2, 400, None), (3, 420, None), (4, 160, 60)]
     for n, count, cap in plan:
         for _ in range(count * scale):
@@ -18,7 +18,7 @@ def gen_cases(rng, tier, scale):
     if tier == 'thorough':
         for _ in range(500 * scale):
             cases += gen_matrix(rng, maxchain, rng.randint(1, 4), 12, flask=True)
-    for _ in range((300 if tier == 'quick' else 6000) * scale):
+    for _ in range((400 if tier == 'quick' else 6000) * scale):
         c = gen_random_case(rng, maxchain)
         if rng.random() < 0.2:
             c = malform(rng, c)
